@@ -92,6 +92,7 @@ func runC09(c *Ctx) {
 
 	ruleTLSSuccessEffects(c)
 
+	ruleAuthReadFailureEnds(c)
 	R.Rule("R-auth-octets", "E4 value flow", "the mechanism receives only the decoded initial response or the decoded line just read; decode errors are tested before use; '*' is tested before decoding; '=' decodes to empty, everything else by base64.StdEncoding", 6)
 	okLeaf := regexp.MustCompile(`^(nil|decodeSASLResponse\(strings\.Fields\(param1\)\[1\]\)#0|decodeSASLResponse\(\(\*Conn\)\.readLine\(param0\)#0\)#0)$`)
 	for _, site := range c.Sites(lNext) {
@@ -298,4 +299,27 @@ func ruleSASLDecode(c *Ctx) {
 			}
 		})
 	}
+}
+
+// ruleAuthReadFailureEnds (C09, C08): when the line of a SASL exchange cannot be read (connection closed, timeout,
+// too long line) handleAuth returns: it neither steps the mechanism again with the previous response nor writes
+// or reads again (on a dead connection that loop never ends and the goroutine outlives the connection).
+func ruleAuthReadFailureEnds(c *Ctx) {
+	R := c.R
+	R.Rule("R-auth-read-failure-ends", "E2 never-after under hypothesis", "after a failed read inside the SASL exchange handleAuth performs no further mechanism step, challenge or read", 1)
+	f := c.A.Func("(*Conn).handleAuth")
+	if f == nil {
+		return
+	}
+	n := 0
+	allInstrs(f, func(in ssa.Instruction) {
+		if !isStaticCall(in, "(*Conn).readLine") {
+			return
+		}
+		n++
+		site := in
+		c.obNeverH("no SASL step, challenge or read after a failed read", f, func(x ssa.Instruction) bool { return x == site },
+			append(append([]string{}, lineReads...), "cb:sasl.Server.Next", "reply:334", "st:Conn.didAuth=true"), describe(in.(ssa.Value))+"#1 != nil")
+	})
+	R.Ob("(*Conn).handleAuth/reads continuation lines", c.P.Pos(f.Pos()), n >= 1, fmt.Sprintf("%d reads", n))
 }
